@@ -2,7 +2,9 @@ import ExoVerif.Driver.Common
 import ExoVerif.Model.Avs
 /- driver for the C20 correspondence. Words: `~` = nil, `-` = empty, lists comma-separated.
    ops: avs.reset | avs.env <operators> <assets> | avs.epochs id=n,… | avs.update … | avs.opt … |
-        avs.task … | avs.bls … | avs.submit … | avs.challenge … | avs.block … | avs.dump -/
+        avs.task … | avs.bls … | avs.submit … | avs.challenge … | avs.block … | avs.dump |
+        avs.note … (a ledger / price change of the environment: delegation, undelegation, slash, oracle
+        price; its effect reaches the model as the self-delegated value of the next avs.opt line) -/
 namespace ExoVerif.Driver.Avs
 open ExoVerif ExoVerif.Avs ExoVerif.Driver
 
@@ -102,6 +104,7 @@ def stepLine (s : State) (w : List String) : State × String :=
     let s' := endL.foldl (fun st e => (step st (.epochEnd e.1 e.2 pw)).1) s
     if s'.halted then (s', "HALT") else step s' (.setEpochs (kvInt eps))
   | ["avs.dump"] => (s, if s.halted then "HALT" else dump s)
+  | "avs.note" :: _ => (s, "ok")
   | _ => (s, "bad-op")
 
 def main : IO Unit := runDriver init stepLine
